@@ -21,6 +21,14 @@ pub fn dispatch(op: &str, req: &Value) -> Result<Value, String> {
     if let Some(k) = op.strip_prefix("c13:") {
         return crate::ops_common::c13(k, req);
     }
+    #[cfg(feature = "stateres")]
+    if let Some(k) = op.strip_prefix("c08:") {
+        return crate::ops_stateres::c08(k, req);
+    }
+    #[cfg(feature = "common")]
+    if let Some(k) = op.strip_prefix("c11:") {
+        return crate::ops_common::c11(k, req);
+    }
     #[cfg(feature = "common")]
     if op == "c16:select" {
         return crate::ops_common::c16(req);
